@@ -440,15 +440,21 @@ theorem site_matrix : SiteMatrix := by
       UK.isUndefined, lookupRow, Mode.code, MJ.Gen.undefHandleUndefined]
   · intro m s r v hs hv
     have hkv := hk v hv
-    simp [step, stepC, inspects, builtinStep, callArgs, callBuiltin, hd, hu, hf, convCall, hp1, hp2, splitKwargs, isKwargsTy,
-      convArgs, convRest, convertOne, ArgTy.asks, hc.1, hc.2, hkv, handBody, testBody, filterBody, hv, hs,
+    have hm : v.isObject = false := by
+      cases v <;> simp [V.isOpaque, V.isObject] at hv ⊢
+    simp [step, stepC, inspects, builtinStep, callArgs, callBuiltin, callBuiltinN, hd, hu, hf, convCall, hp1, hp2, splitKwargs, isKwargsTy,
+      convArgs, convRest, convertOne, ArgTy.asks, hc.1, hc.2, hkv, handBody, testBody, filterBody, defaultBody, hm, hs,
       Comp.run, Comp.bind, Comp.chks, Comp.ofExcept, V.isTrue]
   · intro m s r v o hs hv ho
     have hkv := hk v hv
     have hko := hk o ho
     have hw : wrapperForwards "Rest<T>" = true := by decide
-    simp [step, stepC, inspects, builtinStep, callArgs, callBuiltin, hf, convCall, hp2, splitKwargs, isKwargsTy,
-      convArgs, convRest, convertOne, ArgTy.asks, hw, hc.1, hc.2, hkv, hko, handBody, filterBody, hv, ho, hs,
+    have hmv : v.isObject = false := by
+      cases v <;> simp [V.isOpaque, V.isObject] at hv ⊢
+    have hmo : o.isObject = false := by
+      cases o <;> simp [V.isOpaque, V.isObject] at ho ⊢
+    simp [step, stepC, inspects, builtinStep, callArgs, callBuiltin, callBuiltinN, hf, convCall, hp2, splitKwargs, isKwargsTy,
+      convArgs, convRest, convertOne, ArgTy.asks, hw, hc.1, hc.2, hkv, hko, handBody, filterBody, defaultBody, hmv, hmo, hs,
       Comp.run, Comp.bind, Comp.chks, Comp.ofExcept]
   · intro m s r t hs
     by_cases hc : s.formatter = 0 <;> cases m <;>
@@ -537,6 +543,36 @@ theorem builtin_sites_as_modelled :
       ("filter", "format", ["format"], []),
       ("test", "in", ["undefined_behavior"], ["assert_iterable"])] ∧
     MJ.Gen.undefBuiltinSigs.length = 95 := by decide
+
+/-- the modes that take an error branch form an upward closed set in
+    `Chainable(0) ≤ Lenient(1) ≤ SemiStrict(2) ≤ Strict(3)` -/
+def upClosed (E : List Nat) : Bool :=
+  [0, 1, 2, 3].all (fun m => !E.contains m || [0, 1, 2, 3].all (fun m' => !(decide (m ≤ m')) || E.contains m'))
+
+/-- **all_mode_sites_monotone** — the source tie over the whole crate.  Every mention of the
+    undefined behaviour in `minijinja/src` and `minijinja-contrib/src` (extracted on every run) is
+    * plumbing (field, setter, getter, default, type), the local alias of `eval_impl`,
+    * a call of one of the five helpers (monotone: `helper_mono`),
+    * the match rows of the helpers / of `Environment::format` (`helpers_matrix`), or
+    * a comparison of the mode with variants whose guarded branch is an error and whose set of
+      erroring modes is upward closed in strictness (so `!= Lenient`, `== Lenient`-only or
+      `Chainable | Strict` patterns are rejected);
+    nothing is unclassified, and the comparisons are exactly the two inline tests of `eval_impl` that
+    `emitChk` (`Strict | SemiStrict`) and `sliceChk` (`Strict`) model. -/
+theorem all_mode_sites_monotone :
+    (∀ t ∈ MJ.Gen.undefModeTests, t.2.2.2 = 0 ∧ upClosed t.2.2.1 = true) ∧
+    (∀ r ∈ MJ.Gen.undefModeMentions, r.2.2.1 ∈ ["plumbing", "alias", "rows", "test", "helper:handle_undefined",
+        "helper:is_true", "helper:try_iter", "helper:assert_iterable", "helper:assert_value_not_undefined"]) ∧
+    MJ.Gen.undefModeTests = [("minijinja/src/vm/mod.rs", "eval_impl", [2, 3], 0), ("minijinja/src/vm/mod.rs", "eval_impl", [3], 0)] ∧
+    (MJ.Gen.undefModeMentions.filter (fun r => r.2.2.1 == "rows" || r.2.2.1 == "alias" || r.2.2.1 == "test")).map (fun r => (r.1, r.2.1)) =
+      [("minijinja/src/environment.rs", "format"), ("minijinja/src/utils.rs", "handle_undefined"),
+       ("minijinja/src/utils.rs", "is_true"), ("minijinja/src/utils.rs", "assert_iterable"),
+       ("minijinja/src/utils.rs", "assert_value_not_undefined"), ("minijinja/src/vm/mod.rs", "eval_impl"),
+       ("minijinja/src/vm/mod.rs", "eval_impl")] := by decide
+
+/-- the classification is not vacuous: `!= Lenient` (errors under Chainable, SemiStrict, Strict) is
+    rejected, `Strict | SemiStrict` accepted -/
+example : upClosed [0, 2, 3] = false ∧ upClosed [2, 3] = true ∧ upClosed [3] = true ∧ upClosed [1] = false := by decide
 
 /-! ## full statement -/
 
